@@ -24,6 +24,13 @@ SIB_CLASSES = [0x24, 0x0C, 0x4B, 0x9E, 0xD8, 0x25, 0x65, 0xE5, 0x1D, 0x64, 0x40,
 ESCAPES = {('1', o) for o in (0x0f, 0x26, 0x2e, 0x36, 0x3e, 0x64, 0x65, 0x66, 0x67, 0xf0, 0xf2, 0xf3)} | {('0f', 0x38), ('0f', 0x3a)}
 
 
+# prefix pairs explored by the quick tier over a reduced ModRM set ("lite" units: every /digit, register and [eax] form,
+# one SIB form); the thorough tier runs the pairs of PFX_THOROUGH over the full ModRM x SIB space
+PFX_PAIRS_LITE = [(0x66, 0xF2), (0x66, 0xF3), (0xF2, 0x66), (0xF3, 0x66), (0x66, 0x67), (0x67, 0x66), (0x64, 0x66), (0x66, 0x64), (0xF0, 0x66), (0x67, 0x64),
+                  (0x67, 0xF3), (0x64, 0xF3), (0x3E, 0x66)]
+LITE_MODRM = [((reg << 3) | 0x00, None) for reg in range(8)] + [((reg << 3) | 0xC1, None) for reg in range(8)] + [(0x44, 0x24), (0x84, 0x88), (0x06, None), (0x05, None)]
+
+
 def units(tier):
     """work units (prefix set, map, opcode, tailname); each is enumerated over all ModRM x SIB classes"""
     P = PFX_QUICK if tier == 'quick' else PFX_THOROUGH
@@ -36,6 +43,14 @@ def units(tier):
                     if (m, op) in ESCAPES:
                         continue
                     U.append((pfx, m, op, tn))
+    for pfx in PFX_PAIRS_LITE:
+        if tier != 'quick' and pfx in PFX_THOROUGH:
+            continue
+        for m in MAP_ORDER:
+            for op in range(256):
+                if (m, op) in ESCAPES:
+                    continue
+                U.append((pfx, m, op, 'neg-lite'))
     return U
 
 
@@ -62,11 +77,12 @@ _MV = {}
 def cases_of(unit, tier):
     """yield (bytes, meta) for one work unit; meta = (pfx, map, op, modrm, sib)"""
     pfx, m, op, tn = unit
-    tail = TAILS[tn]
+    lite = tn.endswith('-lite')
+    tail = TAILS[tn[:-5] if lite else tn]
     head = bytes(pfx) + MAPS[m] + bytes([op])
     if tier not in _MV:
         _MV[tier] = modrm_variants(tier)
-    for modrm, sib in _MV[tier]:
+    for modrm, sib in (LITE_MODRM if lite else _MV[tier]):
         if sib is None:
             b = head + bytes([modrm]) + tail
         else:
